@@ -119,6 +119,51 @@ theorem row_search_real (j : ℕ) (hj : 1 ≤ j) :
 
 /-! ## radial polynomials -/
 
+/-- **tie to the source of `R`** (all `Gen.*` below are re-translated from `lentil/zernike.py` on every run): the parity guard, the
+number of terms and the exponents are the ones the model's `radialEval` uses, and the coefficient the code forms as a floating-point
+quotient is an exact integer — `Gen.radialDen` divides `Gen.radialNum` — for every valid (n, m) with n ≤ 40, so `radialCoeff` (their Int
+quotient) is its true value. A change to the formula in the source changes these definitions and breaks this theorem, the tables
+(`radial_at_one`, `radial_gram`) and everything built on them. -/
+theorem radial_formula_tie (n m k : Nat) :
+    (Gen.radialOdd n m = true ↔ (n - m) % 2 = 1) ∧ Gen.radialCount n m = (n - m) / 2 + 1 ∧ Gen.radialExp n m k = n - 2 * k ∧
+    radialCoeff n m k = Gen.radialNum n m k / (Gen.radialDen n m k : Int) ∧
+    (n ≤ 40 → m ≤ n → (n - m) % 2 = 0 → k ≤ (n - m) / 2 →
+      (Gen.radialDen n m k : Int) ∣ Gen.radialNum n m k ∧ Gen.radialDen n m k ≠ 0) := by
+  refine ⟨by simp [Gen.radialOdd], rfl, rfl, rfl, ?_⟩
+  intro hn hm hp hk
+  have T := allCoeffExact_40
+  unfold allCoeffExact at T
+  rw [List.all_eq_true] at T
+  have T1 := T n (List.mem_range.2 (by omega))
+  rw [List.all_eq_true] at T1
+  have T2 := T1 m (List.mem_range.2 (by omega))
+  simp only [Bool.or_eq_true, bne_iff_ne] at T2
+  rcases T2 with h | h
+  · exact absurd hp h
+  · rw [List.all_eq_true] at h
+    have T3 := h k (List.mem_range.2 (by omega))
+    simp only [Bool.and_eq_true, beq_iff_eq, bne_iff_ne] at T3
+    exact ⟨Int.dvd_of_emod_eq_zero T3.1, T3.2⟩
+
+/-- **tie to the source of `zernike`**: the model's mode is the re-translated decision tree and leaf products (`Gen.zernCore`) applied to
+the Noll orders and the radial polynomial; in particular the piston mode is the mask itself, and the normalised m = 0, m > 0, m < 0
+leaves are `√(n+1)·R·mask`, `√2·√(n+1)·R·cos(mθ)·mask`, `√2·√(n+1)·R·sin(mθ)·mask` -/
+theorem mode_formula_tie {K : Type} [Field K] (sqrtN : Nat → K) (cos sin : K → K) (j : Nat) (normalize : Bool) (rho theta : K) (mask : Bool) :
+    zernAt sqrtN cos sin j normalize rho theta mask
+      = Gen.zernCore sqrtN cos sin (nollN j) (nollM j) normalize (radialEval (nollN j) (nollM j).natAbs rho) theta mask ∧
+    (∀ (n : Nat) (Rv : K), Gen.zernCore sqrtN cos sin n 0 true Rv theta true = if n = 0 then 1 else sqrtN (n + 1) * Rv) ∧
+    (∀ (n : Nat) (m : Int) (Rv : K), 0 < m → Gen.zernCore sqrtN cos sin n m true Rv theta true = sqrtN 2 * sqrtN (n + 1) * Rv * cos ((m : K) * theta)) ∧
+    (∀ (n : Nat) (m : Int) (Rv : K), m < 0 → Gen.zernCore sqrtN cos sin n m true Rv theta true = sqrtN 2 * sqrtN (n + 1) * Rv * sin ((m : K) * theta)) ∧
+    (∀ (n : Nat) (m : Int) (Rv : K), m ≠ 0 → Gen.zernCore sqrtN cos sin n m false Rv theta true
+        = Rv * (if 0 < m then cos ((m : K) * theta) else sin ((m : K) * theta))) := by
+  refine ⟨rfl, ?_, ?_, ?_, ?_⟩
+  · intro n Rv; unfold Gen.zernCore; simp
+  · intro n m Rv hm; unfold Gen.zernCore; simp [hm, hm.ne']
+  · intro n m Rv hm; unfold Gen.zernCore; simp [hm.ne, not_lt.2 hm.le]
+  · intro n m Rv hm; unfold Gen.zernCore; simp [hm]
+
+
+
 /-- **R_n^m(1) = 1** for every valid (n, m) with n ≤ 40 (all 861 modes the float evaluation can represent), in any
 commutative ring -/
 theorem radial_at_one {K : Type} [CommRing K] (n m : Nat) (hn : n ≤ 40) (hm : m ≤ n) (h : (n - m) % 2 = 0) :
@@ -352,10 +397,10 @@ finite radial/azimuthal factors — see the known finding KF-C11-nan-outside-mas
 theorem zero_outside_mask {K : Type} [Field K] (sqrtN : Nat → K) (cos sin : K → K) (j : Nat) (normalize : Bool) (rho theta : K) :
     zernAt sqrtN cos sin j normalize rho theta false = 0 ∧ zernAt sqrtN cos sin 1 normalize rho theta true = 1 := by
   constructor
-  · unfold zernAt zernCore; simp only [Bool.false_eq_true, if_false, mul_zero]; split_ifs <;> rfl
+  · unfold zernAt Gen.zernCore; simp only [Bool.false_eq_true, if_false, mul_zero]; split_ifs <;> rfl
   · have h1 : nollN 1 = 0 := by decide
     have h2 : nollM 1 = 0 := by decide
-    simp [zernAt, zernCore, h1, h2]
+    simp [zernAt, Gen.zernCore, h1, h2]
 
 /-- **the mask enters only through its support**: two weight arrays of the same shape that are non-zero at the same samples give
 the same Boolean mask, hence the same moments, origin, coordinates and mode values (all of which are functions of that mask) -/
